@@ -290,8 +290,8 @@ type ConnPlan struct {
 	Mode      string // exact | bytewise | coalesce | split | chunks
 	N         int    // coalesce: frames per write; split: offset inside each frame; chunks: chunk size
 	CutAfter  int64  // cut both directions after this many client->server bytes following the handshake; < 0 never
-	Inject    []byte // raw bytes injected client->server right after the handshake
-	InjectAt  int    // inject before this (0-based) frame instead of right after the handshake
+	Inject    []byte // raw bytes injected client->server
+	InjectAt  int    // ... in front of this (0-based) frame
 }
 
 // Proxy forwards client->server bytes according to per-connection plans.
@@ -447,11 +447,6 @@ func (p *Proxy) serve(client net.Conn, plan ConnPlan) {
 		}
 		return true
 	}
-	if len(plan.Inject) > 0 && plan.InjectAt <= 0 {
-		if !write(plan.Inject) {
-			return
-		}
-	}
 	// read frames from the client
 	var pending [][]byte // complete frames (with prefix) waiting for a coalesced write
 	frameIdx := 0
@@ -494,7 +489,9 @@ func (p *Proxy) serve(client net.Conn, plan ConnPlan) {
 			return
 		}
 		p.FramesSeen.Add(1)
-		if len(plan.Inject) > 0 && plan.InjectAt == frameIdx && plan.InjectAt > 0 {
+		// injections happen in front of a real frame, i.e. after the handshake has completed on both
+		// sides (a conforming client sends its first frame only then)
+		if len(plan.Inject) > 0 && plan.InjectAt == frameIdx {
 			if !flush() || !write(plan.Inject) {
 				return
 			}
